@@ -12,7 +12,7 @@ META = dict(
     "(every pair-verify exception class, peer close at M1/M3, HTTP 4xx, garbage, busy), peer-initiated close of the current connection and of every earlier one at "
     "every later point, close()/shutdown() at every point; oracle at every quiescent state: open connections <= 1, the open one is the current one when "
     "connected, failed/superseded connections are closed by the controller, close() never raises and leaves none open, loss of an abandoned connection "
-    "changes neither is_connected nor the current transport",
+    "changes neither is_connected nor the current transport shutdown() is final: nothing may be open at any quiescent state after it, whatever announcements or callers arrive later (shutdown preludes); further configurations under other read-cutting / block-size / HTTP-spelling environments.",
     note="bounded by deviations d and horizon as reported; accessory never closes a connection on its own unless the explorer says so (worst case for leaks)",
     design_ref="DESIGN.md §4 C11",
     rule="state = canonical (timers, connector frame locals, flags, open conns per side); transition = one environment choice; execution = run to horizon",
